@@ -40,7 +40,8 @@ def run(ctx):
         "f > 0 and every row with cell mass W_r < 2^32, hh[key] >= 2f - W_r when positive; in query answers the key is present "
         "with count >= bound when bound >= max(thr,1) and fewer than k keys count at least as much; a key with 2f > N is first "
         "with count >= 2f - N. C03's predicate is evaluated on the same runs. Histogram entries c04_* count how often each "
-        "clause was actually exercised." % (n_ex, items))
+        "clause was actually exercised. distinct = distinct (shape, program); non-trivial = two added keys share a cell, or a key and its "
+        "NUL-suffixed alias were both added, or two non-empty sketches were merged, or a cell mass reached 2^32-2." % (n_ex, items))
     ctx.assumptions += ["no 32-bit saturation: the total multiplicity mapped to the cell is below 2^32 (as in the property)",
                         "n_added_records does not wrap at 2^64; keys shorter than 2^64 bytes; multiplicities >= 0",
                         "depth >= 1 and width >= 1 (the constructor enforces it)"]
